@@ -62,6 +62,51 @@ func runC16(c0 *Ctx) {
 		c.lockOrderMin(0)
 	})
 
+	c0.rule("C16.W1", "the unordered walk is a walk of the key index: RangeFILO and RangeFIFO walk the recency list without the mutex (the open finding F12: they are safe only while nothing else touches the cache); Range promises one visit per resident key whatever the visitor or other goroutines do to the cache meanwhile, and gets that from the index's own Range; so no function of the cache module calls the two list walkers, and nothing reachable from Range touches the recency list - a Range that is just RangeFILO stops at the first entry its visitor deletes and presents an entry twice when a Get moves it to the front", func() {
+		c := c0.onCache()
+		c.lruMethods()
+		g := c.graph()
+		ll := c.field("cache/lru", "Cache", "ll")
+		isWalker := func(fn *ssa.Function) bool {
+			n := c.nm(fn)
+			return strings.HasSuffix(n, ").RangeFILO") || strings.HasSuffix(n, ").RangeFIFO")
+		}
+		var bad, sites []string
+		walkers := 0
+		for _, fn := range c.P.Funcs {
+			if isWalker(outermost(fn)) {
+				if fn.Parent() == nil {
+					walkers++
+				}
+				continue
+			}
+			for _, callee := range g.out[fn] {
+				if isWalker(callee) {
+					bad = append(bad, c.nm(fn)+" calls the unlocked list walker "+c.nm(callee))
+				}
+			}
+		}
+		var rng *ssa.Function
+		for _, fn := range c.lruMethods() {
+			if strings.HasSuffix(c.nm(fn), ").Range") {
+				rng = fn
+			}
+		}
+		if rng == nil {
+			c.undecided("cache/lru.Cache | Range", "", "method Range not found")
+			return
+		}
+		for fn := range c.reachable(rng) {
+			for _, a := range accessesOf(fn, ll, nil) {
+				bad = append(bad, "the recency list is touched at "+c.at(a.in)+" in "+c.nm(fn)+", reachable from Range")
+			}
+			sites = append(sites, c.nm(fn))
+		}
+		sort.Strings(bad)
+		sort.Strings(sites)
+		c.verdict(len(bad) == 0 && walkers == 2, "cache/lru.Cache | Range walks the index; the list walkers have no caller in the module", c.P.Pos(rng.Pos()), fmt.Sprintf("%d function(s) reachable from Range, none touches ll; RangeFILO / RangeFIFO are not called", len(sites)), join(uniq(bad))+fmt.Sprintf(" (%d list walkers found, 2 tabled)", walkers), sites...)
+	})
+
 	c0.rule("C16.L1", "cache/lru.Cache: the recency list ll and the running total size are accessed only under mtx (exclusive for mutation); helpers running under the caller's lock inherit it from all their call sites", func() {
 		c := c0.onCache()
 		c.lruMethods()
